@@ -105,7 +105,8 @@ class FullOps(TorchCalls):
             whole = len(dims) == len(t.axes)
             q = "allfinite?" + "+".join(sorted(t.origin))
             note = {("finite-test", "all"): q, ("finite-test:non", "any"): q + "|neg"}.get((t.note, fn)) if whole else None
-            out = out.but(note=note or "finite-test:other")
+            part = {("finite-test:nan", "any"): "anynan?", ("finite-test:inf", "any"): "anyinf?"}.get((t.note, fn)) if whole else None
+            out = out.but(note=note or ((part + "+".join(sorted(t.origin))) if part else "finite-test:other"))  # (any(isnan(x)) / any(isinf(x)): halves of the question, see boolop)
             if note and t.origin == frozenset(["matrix"]):
                 self.ev("finite_check", node)
         return self.tag(out, "reduce", node, fn=fn, over=[t.axes[d] for d in dims], over_pos=list(dims), in_axes=list(t.axes), in_origin=sorted(t.origin))
